@@ -87,6 +87,38 @@ def keep(pid, letter, srcdir, tier="quick"):
     print("kept in", d, "detected" if rc == 1 else f"NOT detected (exit {rc})")
     return 0
 
+def recheck_all(out="/tmp/recheck_all.log", only=None):
+    """Regression of the checks against every kept seeded change, each in its own scratch worktree (the checks import
+    onnx_ir from the worktree through PYTHONPATH; /repo is not touched)."""
+    import glob, json
+    res = []
+    for d in sorted(glob.glob("/verif/seeded/*_*")):
+        name = os.path.basename(d)
+        if only and name not in only:
+            continue
+        meta = json.load(open(f"{d}/meta.json"))
+        if meta.get("superseded"):
+            res.append((name, "superseded")); continue
+        pid = name.split("_")[0]
+        wt = tempfile.mkdtemp(prefix="mutr_", dir="/tmp"); os.rmdir(wt)
+        r = sh(f"git -C /repo worktree add --detach {wt} HEAD -q")
+        try:
+            r = sh(f"git -C {wt} apply {d}/patch.diff")
+            if r.returncode:
+                res.append((name, "PATCH DOES NOT APPLY")); continue
+            env = dict(os.environ, PYTHONPATH=f"{wt}/src:/verif", VERIF_EVIDENCE_DIR="/tmp/verif_mutant_evidence", ONNX_IR_PY_VERIF="1", PYTHONDONTWRITEBYTECODE="1")
+            r = sh(f"/verif/.venv/bin/python -m engine.cli check {pid} --tier quick", cwd="/verif", env=env)
+            res.append((name, {1: "detected", 0: "NOT DETECTED", 2: "INCONCLUSIVE"}.get(r.returncode, str(r.returncode))))
+        finally:
+            sh(f"git -C /repo worktree remove --force {wt}")
+            shutil.rmtree(wt, ignore_errors=True)
+        with open(out, "a") as f:
+            f.write(f"{res[-1][0]} {res[-1][1]}\n")
+    for n, v in res:
+        print(n, v)
+    return 0 if all(v in ("detected", "superseded") for _, v in res) else 1
+
+
 if __name__ == "__main__":
     a = sys.argv[1:]
-    sys.exit(verify(a[1], a[2]) if a[0] == "verify" else keep(*a[1:]) if a[0] == "keep" else check(*a[1:]))
+    sys.exit(verify(a[1], a[2]) if a[0] == "verify" else keep(*a[1:]) if a[0] == "keep" else recheck_all(only=a[1:] or None) if a[0] == "recheck-all" else check(*a[1:]))
